@@ -672,6 +672,39 @@ fn many_turns(run: &Run) {
     });
 }
 
+/// points of winding number 2 and 0-inside-2 (same-sense and opposite-sense nested contours, a contour
+/// traced twice) under both rules at tolerances on both sides of what the flattening library accepts:
+/// the rule is the path's, whatever route the tolerance takes
+fn nested_contours_at_all_tolerances(run: &Run) {
+    let tols = [5e-9f32, 1e-12, 3e-30, 1e-8, 0.1, 100.0];
+    run.bound("nested contours at all tolerances", format!("two nested squares (same / opposite sense, either order), a square traced twice, three nested squares x tolerances {:?} x 2 rules x 12 query points", tols));
+    let sq = |a: i32, b: i32, cw: bool| -> Vec<QOp> {
+        let p = if cw { vec![(a, a), (b, a), (b, b), (a, b)] } else { vec![(a, a), (a, b), (b, b), (b, a)] };
+        let mut v: Vec<QOp> = p.iter().enumerate().map(|(i, q)| if i == 0 { QOp::M(q.0, q.1) } else { QOp::L(q.0, q.1) }).collect();
+        v.push(QOp::Z);
+        v
+    };
+    let mut shapes: Vec<Vec<QOp>> = Vec::new();
+    for a in [true, false] {
+        for b in [true, false] {
+            shapes.push([sq(0, 16, a), sq(4, 12, b)].concat());
+            shapes.push([sq(4, 12, b), sq(0, 16, a)].concat());
+            shapes.push([sq(0, 16, a), sq(4, 12, b), sq(6, 10, a)].concat());
+        }
+        let mut twice = sq(2, 14, a);
+        twice.pop();
+        let again: Vec<QOp> = twice.iter().map(|o| match o { QOp::M(x, y) => QOp::L(*x, *y), o => o.clone() }).collect();
+        shapes.push([twice, again, vec![QOp::Z]].concat());
+    }
+    let qs: Vec<P> = vec![(8, 8), (2, 8), (5, 8), (8, 5), (13, 13), (4, 4), (12, 8), (0, 0), (16, 9), (17, 8), (8, -1), (7, 7)];
+    run.par(shapes.len(), |s, l| {
+        for &t in &tols {
+            l.states += 1;
+            eval_path_tol(run, 89_000 + s, l, &shapes[s], &qs, false, t);
+        }
+    });
+}
+
 impl Check for C17 {
     fn id(&self) -> &'static str {
         "C17"
@@ -693,6 +726,7 @@ impl Check for C17 {
         ulp_family(run);
         exact_points_at_tiny_tolerances(run);
         many_turns(run);
+        nested_contours_at_all_tolerances(run);
         // straight paths do not depend on the tolerance, however large or small
         {
             let tols = [0.001f32, 3.0, 100.0];
